@@ -249,13 +249,15 @@ def gen_loss(rng, arith, model):
     if arith == "float" and model["family"] in ("linear", "hash", "inter", "const") and rng.random() < 0.15:
         return {"family": "river", "metric": rng.choice(["MSE", "MAE"]), "seed": 0, "sig": "pos"}
     if arith == "exact":
-        fam = wchoice(rng, [("hash", 40), ("sq", 30), ("abs", 15), ("lin", 15)])
+        fam = wchoice(rng, [("hash", 36), ("sq", 28), ("abs", 14), ("lin", 14), ("bool01", 8)])
     else:
         fam = wchoice(rng, [("sq", 50), ("abs", 25), ("lin", 25)])
     sig = wchoice(rng, [("pos", 34), ("other", 10), ("posonly", 10), ("named", 10), ("callable", 8), ("varargs", 5),
                         ("y_varargs", 4), ("decorated", 5), ("partial", 5), ("method", 5), ("defaulted", 4)])
     out = {"family": fam, "seed": rng.getrandbits(32), "sig": sig}
     # tiny-scale losses: a deviation must not hide below an absolute threshold
+    if fam == "bool01":
+        return out
     if arith == "exact":
         k = wchoice(rng, [(0, 75), (6, 10), (12, 10), (20, 5)])
     elif arith == "float":
@@ -348,7 +350,7 @@ def gen_world_config(rng, focus, arith=None, d=None, names_kind=None):
             if rng.random() < 0.5:
                 iv["n_inner"] = rng.randint(1, 2)
             explainers.append(iv)
-    if arith == "exact" and loss["family"] == "river":
+    if arith == "exact" and loss["family"] in ("river", "bool01"):
         # a discontinuous loss needs exactly reproducible running means: no default (double) alpha
         for e in explainers:
             if e["cls"] in ("pfi", "sage") and e.get("dynamic", True) and "alpha" not in e:
@@ -450,7 +452,9 @@ def gen_batch_config(rng, arith=None, names_kind=None, classes=None):
             e["interval_length"] = rng.randint(1, 7)
             e["storage_length"] = rng.randint(1, 7)
             if rng.random() < 0.5:
-                storages.append({"kind": "interval", "size": e["storage_length"], "targets": True})
+                # an explicit storage decides the window; half of the time its size differs from storage_length
+                size = e["storage_length"] if rng.random() < 0.5 else rng.randint(1, 7)
+                storages.append({"kind": "interval", "size": size, "targets": True})
                 e["storage"] = len(storages) - 1
         else:
             if rng.random() < 0.4:
@@ -519,8 +523,13 @@ def gen_batch_schedule(rng, cfg, T=None, big=False):
     return b.ops
 
 
-def gen_batch_plan(rng, prop, big=False, **kw):
+def gen_batch_plan(rng, prop, big=False, huge=False, **kw):
+    if huge:
+        kw["arith"] = "float"
+        big = True
     cfg = gen_batch_config(rng, **kw)
+    if huge:
+        cfg["huge"] = True
     if big:
         for e in cfg["explainers"]:
             e["n_inner"] = 1
@@ -529,7 +538,7 @@ def gen_batch_plan(rng, prop, big=False, **kw):
         # explain_many over many rows as well
         for k, e in enumerate(cfg["explainers"]):
             if e["cls"] == "batch":
-                n_rows = rng.randint(33, 90)
+                n_rows = rng.randint(33, 90) if not huge else rng.randint(1025, 2600)
                 ops.append({"op": "many_orig" if rng.random() < 0.5 else "many", "e": k,
                             "tags": [1000 + j for j in range(n_rows)], "rs": rng.getrandbits(48)})
     strip_private(cfg)
